@@ -176,7 +176,10 @@ class CacheRunner:
     def __init__(self, budget_name, values="str"):
         from twosigma.memento.storage_base import MemoryCache
 
-        self.refs = storeops.Refs("c")
+        # (the cache is driven directly here: in some configurations the second function carries a version with slashes, the
+        # separator of cache keys)
+        slashed = budget_name == "6KiB" or values != "str"  # (elsewhere the second function is fn#10, next to fn#1)
+        self.refs = storeops.Refs("c", table=[("fn", "1"), ("fn", "rel/3.1/rc2"), ("fn1", "0")] if slashed else None)
         self.cache = MemoryCache(BUDGETS[budget_name])
         self.sizes = size_classes(self.cache.memory_cache_bytes)
         make = str_of_size if values == "str" else array_of_size
